@@ -322,6 +322,19 @@ where
     let outcome = runner.run(&strategy, |v| {
         let mut scratch = Stats::new();
         let is_frozen = *frozen.borrow();
+        if !is_frozen && shard == 0 && stats.borrow().evaluations == 0 && stats.borrow().samples.is_empty() {
+            // always keep the first generated case of the first shard as a sample
+            let mut text = serde_json::to_string(&v).unwrap_or_default();
+            if text.len() > 1500 {
+                let mut cut = 1500;
+                while !text.is_char_boundary(cut) {
+                    cut -= 1;
+                }
+                text.truncate(cut);
+                text.push_str("...(truncated)");
+            }
+            stats.borrow_mut().samples.push(json!({"first_generated_case": label, "case_json": text}));
+        }
         let res = if is_frozen {
             run_one(&v, &mut scratch)
         } else {
